@@ -22,7 +22,18 @@
    into the single label [LOp]: the only things that can happen in between are lock-free loads
    (equivalent to loads after the label) and a registration / un-registration (equivalent to one
    just before the label).  [pend] is the set of subscribers the running broadcast still has to
-   serve; the machine mutex and the manager mutex are held exactly while [pend <> []]. *)
+   serve; the machine mutex and the manager mutex are held exactly while [pend <> []].
+
+   The forwarder.  Unchanged code (legacy):  for s := range userCh { wrappedCh <- s }  - a forwarder
+   holding a value while the consumer does not read is blocked in the send forever, also after the
+   subscriber's context was cancelled (goroutine leak, C18).  Repaired code:
+     for s := range userCh { select { case wrappedCh <- s: case <-ctx.Done(): return } }
+   i.e. a forwarder holding a value may, once the context is cancelled, give up: the value in its
+   hand is lost, wrappedCh is closed (deferred) and the goroutine ends - label [LFwdAbort].  The model
+   keeps the lost value in [hand] (nobody looks at it again: every forwarder label requires
+   [wclosed = false]), so that the pipeline equation of FsmStream.v stays an equation.
+   [stepx fx] is the model with ([fx] = true) or without the repair; [fix_fwd] says which variant
+   [step] - the one all theorems and the correspondence checks are about - is. *)
 From Coq Require Export List NArith Bool.
 Export ListNotations.
 
@@ -138,7 +149,8 @@ Inductive label :=
 | LRecv (i : nat) (v : st)
 | LRecvClosed (i : nat)
 | LGet (v : st)                 (* GetState() = v *)
-| LIsRun (b : bool).            (* IsRunning() = b  (GetState() == Running in all three runners) *)
+| LIsRun (b : bool)             (* IsRunning() = b  (GetState() == Running in all three runners) *)
+| LFwdAbort (i : nat).          (* repaired forwarder: ctx.Done() wins the select, value dropped, wch closed *)
 
 Fixpoint upd (i : nat) (f : sub -> sub) (l : list sub) : list sub :=
   match l, i with
@@ -176,7 +188,9 @@ Definition new_sub (n : nat) : sub :=
 
 Definition is_nil {A} (l : list A) : bool := match l with [] => true | _ => false end.
 
-Definition step (c : tcfg) (s : state) (l : label) : option state :=
+Definition fix_fwd : bool := true.
+
+Definition stepx (fx : bool) (c : tcfg) (s : state) (l : label) : option state :=
   match l with
   | LOp o ok =>
     if is_nil (pend s) then
@@ -223,6 +237,7 @@ Definition step (c : tcfg) (s : state) (l : label) : option state :=
     with_sub s i (fun x =>
       match sg x, hand x, bch x with
       | SLive, None, v :: r =>
+        if wclosed x then None else
         Some (mkSub SLive r (bclosed x) (Some v) (wch x) (wclosed x) (cancelled x) (unsub x)
                     (dropped x) (got x) (gotclosed x) (reg_at x) (read_at x) (unsub_at x))
       | _, _, _ => None
@@ -231,6 +246,7 @@ Definition step (c : tcfg) (s : state) (l : label) : option state :=
     with_sub s i (fun x =>
       match hand x, wch x with
       | Some v, [] =>
+        if wclosed x then None else
         Some (mkSub (sg x) (bch x) (bclosed x) None [v] (wclosed x) (cancelled x) (unsub x)
                     (dropped x) (got x) (gotclosed x) (reg_at x) (read_at x) (unsub_at x))
       | _, _ => None
@@ -281,7 +297,22 @@ Definition step (c : tcfg) (s : state) (l : label) : option state :=
       end)
   | LGet v => if st_eqb (cur s) v then Some s else None
   | LIsRun b => if Bool.eqb (st_eqb (cur s) Running) b then Some s else None
+  | LFwdAbort i =>
+    if fx then
+      with_sub s i (fun x =>
+        match sg x, hand x with
+        | SLive, Some _ =>
+          if cancelled x && negb (wclosed x)
+          then Some (mkSub SLive (bch x) (bclosed x) (hand x) (wch x) true (cancelled x) (unsub x)
+                           (dropped x) (got x) (gotclosed x) (reg_at x) (read_at x) (unsub_at x))
+          else None
+        | _, _ => None
+        end)
+    else None
   end.
+
+(* the model of the code as it is in the repository *)
+Definition step : tcfg -> state -> label -> option state := stepx fix_fwd.
 
 (* ------------------------------------------------------------------ *)
 (* The executable predicates of the property (used by the theorems and by the driver) *)
